@@ -61,6 +61,9 @@ func (a Ary[LEN]) ReadFrom(r io.Reader) (n int64, err error) {
 	if Len < 0 {
 		return n, errors.New("array length less than zero")
 	}
+	if int64(int(Len)) != int64(Len) { // a Long or VarLong count on a 32-bit platform
+		return n, errors.New("array length does not fit in int")
+	}
 
 	array := reflect.ValueOf(a.Ary)
 	for array.Kind() == reflect.Ptr {
